@@ -758,8 +758,12 @@ def _run_history(cmp, steps):
 
 def _observe_tables(cmp, case, o):
     narrow = any("storage" in r for r in case["ranks"])
-    for u in (False, True):
-        key = "untied" if u else "plain"
+    # the flag is also handed over as a truthy / falsy value that is not the literal bool (np.True_, 1, np.False_, 0), as a caller
+    # writing `untied=np.any(...)` does; which form is used is fixed by the case
+    form = sum(len(r.get("alts", [])) for r in case["ranks"]) % 3
+    for u0 in (False, True):
+        key = "untied" if u0 else "plain"
+        u = [u0, np.bool_(u0), int(u0)][form]
         df = cmp.to_dataframe(untied=u)
         o[key] = {
             "frame": _frame(df),
@@ -768,6 +772,11 @@ def _observe_tables(cmp, case, o):
             "r2": _table(cmp.r2_score(untied=u)),
             "dist": _table(cmp.distance(untied=u)),
         }
+        for meth in ("spearman", "kendall"):  # the other documented correlation methods, same frame
+            try:
+                o[key]["corr_" + meth] = _table(cmp.corr(untied=u, method=meth))
+            except Exception as e:
+                o[key]["corr_" + meth] = {"err": G.err_name(e)}
         if narrow:
             o[key]["frame_dtypes"] = [str(d) for d in df.dtypes]
         extra = []
@@ -912,10 +921,12 @@ def _variance(xs):
 def diag_expectations(case, untied):
     """per statistic: list over rankings of (expected diagonal value | None when NaN is legitimate)"""
     cols = expected_columns(case, untied)
-    out = {"corr": [], "cov": [], "r2": [], "dist": []}
+    out = {"corr": [], "cov": [], "r2": [], "dist": [], "corr_spearman": [], "corr_kendall": []}
     for col in cols:
         var = _variance(list(col.values()))
         out["corr"].append(1.0 if (var is not None and var > 0) else None)
+        out["corr_spearman"].append(1.0 if (var is not None and var > 0) else None)
+        out["corr_kendall"].append(1.0 if (var is not None and var > 0) else None)
         out["cov"].append(float(var) if var is not None else None)
         out["r2"].append(1.0)
         out["dist"].append(0.0)
@@ -926,7 +937,8 @@ def _close(a, b):
     return abs(a - b) <= TOL * max(1.0, abs(b))
 
 
-STAT_LABEL = {"corr": "corr", "cov": "cov", "r2": "r2_score", "dist": "distance"}
+STAT_LABEL = {"corr": "corr", "cov": "cov", "r2": "r2_score", "dist": "distance", "corr_spearman": "corr(method='spearman')",
+              "corr_kendall": "corr(method='kendall')"}
 
 
 def recompute_tables(frame):
@@ -949,6 +961,8 @@ def recompute_tables(frame):
             for j in range(m):
                 lo, hi = min(i, j), max(i, j)  # r2_score(y_true=earlier ranking, y_pred=later one), filled both ways
                 out["corr"][i][j] = _num(series[i].corr(series[j]))
+                out["corr_spearman"][i][j] = _num(series[i].corr(series[j], method="spearman"))
+                out["corr_kendall"][i][j] = _num(series[i].corr(series[j], method="kendall"))
                 out["cov"][i][j] = _num(series[i].cov(series[j]))
                 out["r2"][i][j] = _num(skl_metrics.r2_score(cols[lo], cols[hi]))
                 out["dist"][i][j] = _num(sp_distance.hamming(cols[i], cols[j]))
@@ -1185,9 +1199,14 @@ def judge(case, obs, replies):
         # pairwise statistics: square over the names, self-comparison on the diagonal
         diag = diag_expectations(case, u)
         recomputed = recompute_tables(fr)
-        for stat in ("corr", "cov", "r2", "dist"):
-            t = o[stat]
+        for stat in ("corr", "cov", "r2", "dist", "corr_spearman", "corr_kendall"):
+            t = o.get(stat)
+            if t is None:
+                continue
             sl = f"{STAT_LABEL[stat]}(untied={u})"
+            if "err" in t:
+                prop(f"{sl} refused with {t['err']}", "a table", t["err"])
+                continue
             if t["index"] != names or t["columns"] != names or len(t["values"]) != len(names) or \
                     any(len(row) != len(names) for row in t["values"]):
                 prop(f"{sl} is not square over the ranking names", names, [t["index"], t["columns"]])
